@@ -179,4 +179,84 @@ example : (mpf_set_z 0 (mkSt r2 default default) (-5) (Blk.ofLimbs [1, 2, 3, 4, 
 -- negative: `prec = PREC (r) + 2`
 example : (mpf_set_z 1 (mkSt r2 default default) (-5) (Blk.ofLimbs [1, 2, 3, 4, 5] 6)).ok = false := by decide
 
+/-- mpf_mul_ui (r, u, v) and mpf_mul_ui (r, r, v) (mpf/mul_ui.c) for every operand length: the operand is cut to PREC (r) limbs
+    (the dropped limbs are only read, for the carry-in), mpn_mul_1 stores `size ≤ PREC` limbs and the carry limb is stored
+    unconditionally at rp[size], index ≤ PREC: inside the PREC + 1 limbs.  Result = C13's `Mpf.mul_ui`. -/
+theorem mpf_mul_ui_dest_safe (s : St) (x : Src) (w : Nat) (hs : s.ok = true) (hr : DestWF s.r) (hx : OpndWF (s.obj x)) :
+    (mpf_mul_ui 0 s x w).ok = true ∧ (mpf_mul_ui 0 s x w).u = s.u ∧ (mpf_mul_ui 0 s x w).v = s.v ∧
+    (mpf_mul_ui 0 s x w).r.prec = s.r.prec ∧ (mpf_mul_ui 0 s x w).r.blk.alloc = s.r.blk.alloc ∧ BlkWF (mpf_mul_ui 0 s x w).r.blk ∧
+    (mpf_mul_ui 0 s x w).r.view = Mpf.mul_ui s.r.prec (s.obj x).view w ∧
+    (Mpf.OpWF (s.obj x).view → 1 ≤ s.r.prec → w < B → Mpf.WF (mpf_mul_ui 0 s x w).r.view) := by
+  obtain ⟨hrb, hra⟩ := hr
+  obtain ⟨hxb, hxa⟩ := hx
+  have hwf : (mpf_mul_ui 0 s x w).r.view = Mpf.mul_ui s.r.prec (s.obj x).view w →
+      (Mpf.OpWF (s.obj x).view → 1 ≤ s.r.prec → w < B → Mpf.WF (mpf_mul_ui 0 s x w).r.view) := by
+    intro hv ho hp hw; rw [hv]; exact (Mpf.mul_ui_spec s.r.prec hp _ w ho hw).1.1
+  by_cases hz : w = 0 ∨ (s.obj x).size = 0
+  · have e : mpf_mul_ui 0 s x w = s.setSE 0 0 := by simp only [mpf_mul_ui, if_pos hz]
+    have hv : (mpf_mul_ui 0 s x w).r.view = Mpf.mul_ui s.r.prec (s.obj x).view w := by
+      rw [e]; unfold Mpf.mul_ui; rw [if_pos (show w = 0 ∨ (s.obj x).view.size = 0 from hz)]; rfl
+    refine ⟨?_, ?_, ?_, ?_, ?_, ?_, hv, hwf hv⟩ <;> rw [e]
+    · exact hs
+    · rfl
+    · rfl
+    · rfl
+    · rfl
+    · exact hrb
+  · have hxl : (s.obj x).size.natAbs ≤ (s.obj x).blk.limbs.length := by rw [hxb]; exact hxa
+    generalize hasz : (s.obj x).size.natAbs = asize at hxl hxa
+    generalize hP : s.r.prec = P at hra
+    generalize hex : asize - P = excess
+    generalize hn : (if excess > 0 then P else asize) = n
+    have hn1 : excess + n = asize := by subst hex hn; split <;> omega
+    have hn2 : n ≤ P := by subst hex hn; split <;> omega
+    have r1 := rd_spec s x 0 excess hs (by omega)
+    have r2 := rd_spec s x excess n hs (by omega)
+    generalize hL : (s.obj x).blk.limbs = L at r1 r2 hxl
+    have hcat : (L.drop 0).take excess ++ (L.drop excess).take n = L.take asize := by
+      rw [← hn1, List.take_add]; simp
+    generalize ht : val (L.take asize) * w / B ^ excess = t
+    generalize hcy : t / B ^ n = cy
+    generalize hc : (if cy ≠ 0 then 1 else 0 : Nat) = c
+    have hc1 : c ≤ 1 := by subst hc; split <;> omega
+    generalize hsz : (if (s.obj x).size ≥ 0 then ((n + c : Nat) : Int) else -((n + c : Nat) : Int)) = sz
+    have hszn : sz.natAbs = n + c := by subst hsz; split <;> omega
+    have e : mpf_mul_ui 0 s x w = ((s.wrR 0 (toLimbs n t)).wrR n [cy]).setSE sz ((s.obj x).exp + c) := by
+      simp only [mpf_mul_ui, if_neg hz, Nat.add_zero, hasz, hP, hex, hn, r1.1, r1.2, r2.1, r2.2, hcat, ht, hcy, hc, hsz]
+    have hlen := Mpf.toLimbs_length n t
+    obtain ⟨a1, a2, a3, _, a4, _, _, a7, a8, a9⟩ := wrR_spec s 0 (toLimbs n t) hs hrb (by rw [hlen]; omega)
+    obtain ⟨b1, b2, b3, _, b4, _, _, b7, b8, b9⟩ := wrR_spec (s.wrR 0 (toLimbs n t)) n [cy] a1 a8
+      (by rw [a7]; simp only [List.length_singleton]; omega)
+    have hv : (mpf_mul_ui 0 s x w).r.view = Mpf.mul_ui s.r.prec (s.obj x).view w := by
+      rw [e]
+      have g1 : (((s.wrR 0 (toLimbs n t)).wrR n [cy]).setSE sz ((s.obj x).exp + c)).r.view =
+          ⟨s.r.prec, sz, (s.obj x).exp + c, (((s.wrR 0 (toLimbs n t)).wrR n [cy]).r.blk.limbs).take (n + c)⟩ := by
+        simp only [FObj.view, St.setSE, hszn, b4, a4]
+      rw [g1, b9, a9]
+      have := take_two_writes s.r.blk.limbs (toLimbs n t) cy c hc1
+      rw [hlen] at this
+      rw [hlen, this]
+      unfold Mpf.mul_ui; rw [if_neg (show ¬ (w = 0 ∨ (s.obj x).view.size = 0) from hz)]
+      have hn' : (if asize > P then P else asize) = n := by subst hex hn; split <;> split <;> omega
+      have hlt : (List.take asize L).length = asize := by rw [List.length_take]; omega
+      simp only [FObj.view, hasz, hL, hlt, hP, hex, hn', ht, hcy]
+      subst hc hsz
+      by_cases h0 : cy = 0
+      · simp [h0, hlen]
+      · simp [h0, hlen]
+    subst hP
+    refine ⟨?_, ?_, ?_, ?_, ?_, ?_, hv, hwf hv⟩ <;> rw [e]
+    · exact b1
+    · exact b2.trans a2
+    · exact b3.trans a3
+    · exact b4.trans a4
+    · exact b7.trans a7
+    · exact b8
+
+example : (mpf_mul_ui 0 (mkSt r2 u5 default) .u (B - 1)).ok = true ∧
+    (mpf_mul_ui 0 (mkSt r2 u5 default) .u (B - 1)).out = (-3, 8, [B - 2, B - 2, 4]) := by decide
+example : (mpf_mul_ui 0 (mkSt r5 default default) .r (B - 1)).ok = true := by decide
+-- negative: `prec = r->_mp_prec + 1` keeps three limbs and stores the carry at rp[3]
+example : (mpf_mul_ui 1 (mkSt r2 u5 default) .u (B - 1)).ok = false := by decide
+
 end Mpir.AllocSafe7
